@@ -68,6 +68,11 @@ FLAVOURS = {
              "-DCMAKE_CXX_FLAGS=-O1 -g -fsanitize=address,undefined -fno-sanitize-recover=undefined -fno-omit-frame-pointer",
              "-DCMAKE_C_FLAGS=-O1 -g -fsanitize=address,undefined",
              "-DCMAKE_EXE_LINKER_FLAGS=-fsanitize=address,undefined"],
+    # libstdc++ precondition checks (e.g. back() on an empty string aborts): turns
+    # some undefined behaviour into a deterministic abort of the real tool
+    "assert": ["-DCMAKE_BUILD_TYPE=Release", "-DCMAKE_CXX_FLAGS=-g1 -D_GLIBCXX_ASSERTIONS"],
+
+
     # asan + libstdc++ container assertions (back() on an empty string, operator[] out of range ...): C20
     # (the bounds/overflow subset of UBSan only: alignment and shift reports would stop a run before it gets anywhere)
     "hard": ["-DCMAKE_BUILD_TYPE=RelWithDebInfo",
@@ -145,6 +150,35 @@ def gen_sources(only=None):
     sys.path.insert(0, os.path.join(VERIF, "tools"))
     import gen_src
     return gen_src.generate_all(REPO, os.path.join(COQ, "theories", "Gen"), only=only)
+
+
+def gen_components_of(prop_id):
+    """Names of the Gen/Src_<comp>.v files that Props/Properties_<id>.v (transitively) imports:
+    only their translators are part of this property's tie."""
+    root = os.path.join(COQ, "theories")
+    seen, todo, comps = set(), [os.path.join("Props", "Properties_%s" % prop_id), os.path.join("Extract", "Extract_%s" % prop_id)], set()
+    while todo:
+        m = todo.pop()
+        if m in seen:
+            continue
+        seen.add(m)
+        path = os.path.join(root, m + ".v")
+        if not os.path.exists(path):
+            continue
+        txt = strip_coq_comments(open(path).read())
+        for st in re.findall(r"(?:From\s+PP\s+)?Require\s+(?:Import\s+|Export\s+)?([^;]*?)\.(?=\s)", txt, flags=re.S):
+            for tok in st.split():
+                tok = tok.strip()
+                if tok.startswith("PP."):
+                    tok = tok[3:]
+                if not re.match(r"^[A-Za-z_][\w.]*$", tok):
+                    continue
+                rel = tok.replace(".", os.sep)
+                if os.path.exists(os.path.join(root, rel + ".v")):
+                    todo.append(rel)
+                    if rel.startswith("Gen" + os.sep + "Src_"):
+                        comps.add(rel[len("Gen" + os.sep + "Src_"):])
+    return comps
 
 
 def coq_make(targets, timeout=1500):
@@ -391,10 +425,14 @@ class Check:
             self.cov["samples"].append(obj)
 
     # ---- proof side
-    def proofs(self, extra_trusted=()):
-        """Regenerate Gen/, compile the property file, record obligations."""
+    def proofs(self, extra_trusted=(), only=None):
+        """Regenerate Gen/, compile the property file, record obligations.
+        Translator failures count for this property only when the failing component is one its
+        theories (transitively) import, or is listed in `only`."""
+        mine = gen_components_of(self.prop) | set(only or [])
         errs = gen_sources()
-        gen_broken = {k: v for k, v in errs.items() if v}
+        gen_broken = {k: v for k, v in errs.items() if v and k in mine}
+        self.cov["translators_in_tie"] = sorted(mine)
         res = check_properties_file(self.prop)
         self.cov["obligations"] = len(res["theorems"])
         self.cov["discharged"] = len([t for t in res["theorems"] if t in res["accepted"]])
@@ -555,3 +593,177 @@ def correspond(check, name, model_exe, impl_exe, lines, describe=None, bucket=No
         l, a, b = min(dis, key=lambda d: len(d[0]))
         check.broken.append("correspondence %s: %d disagreement(s); smallest: case %r model=%r impl=%r" % (name, len(dis), l[:200], a[:200], b[:200]))
     return dis
+
+
+def asan_lines(check, harness, lines, what="", timeout=3000):
+    """(added for C10/C12/C14) Run protocol lines through the ASan+UBSan build of a harness.  A sanitizer report or a
+    crash is a violation whose replay is the case being processed when it happened.  Returns True when clean."""
+    ok, blog = build_repo([harness], flavour="asan")
+    if not ok:
+        check.broken.append("asan build of %s failed: %s" % (harness, blog[-400:]))
+        return False
+    env = dict(os.environ, ASAN_OPTIONS="detect_leaks=0:allocator_may_return_null=1", UBSAN_OPTIONS="print_stacktrace=1:halt_on_error=1")
+    rc, out, err = run_lines(hx_bin(harness, "asan"), lines, timeout=timeout, env=env)
+    if rc != 0 or "AddressSanitizer" in err or "runtime error" in err:
+        idx = min(len(out), len(lines) - 1)
+        m = re.search(r"(ERROR: AddressSanitizer: [^\n]*|[^\n]*runtime error: [^\n]*)", err)
+        check.violation("memory: sanitizer report in %s %s while processing case %s: %s" % (harness, what, lines[idx][:200], m.group(1)[:300] if m else "status %s" % rc),
+                        {"op": "asan", "harness": harness, "case": lines[idx], "report": err[-1500:]})
+        return False
+    check.cov["traces_validated_against_impl"] += len(lines)
+    check.cov["distribution"]["asan/" + harness] = check.cov["distribution"].get("asan/" + harness, 0) + len(lines)
+    return True
+
+
+def run_lines_resilient(exe, lines, timeout=900, env=None, max_deaths=5):
+    """Like run_lines, but when the harness dies or hangs in the middle it is restarted after
+    the case that killed it.  Returns (outputs, deaths): outputs[i] is None for a case that
+    killed the harness (or was not reached after max_deaths); deaths = [(index, rc, stderr tail)]."""
+    outs = [None] * len(lines)
+    deaths = []
+    start = 0
+    while start < len(lines) and len(deaths) <= max_deaths:
+        try:
+            rc, o, err = run_lines(exe, lines[start:], timeout=timeout, env=env)
+        except subprocess.TimeoutExpired as e:
+            o = (e.stdout or b"").decode("utf-8", "replace").split("\n")
+            if o and o[-1] == "":
+                o.pop()
+            elif o:
+                o.pop()          # incomplete last line
+            rc, err = "timeout", ""
+        n = min(len(o), len(lines) - start)
+        outs[start:start + n] = o[:n]
+        if start + n >= len(lines):
+            break
+        deaths.append((start + n, rc, err[-300:]))
+        start = start + n + 1
+    return outs, deaths
+
+
+def coqchk(check, modules=None, timeout=1800):
+    """thorough tier: re-check the compiled closure of the property files with the stand-alone
+    checker coqchk; anything other than 'Axioms: <none>' etc. is recorded as broken.
+    modules defaults to PP.Props.Properties_<id>."""
+    if not isinstance(modules, (list, tuple)):
+        if isinstance(modules, (int, float)):
+            timeout = modules
+        modules = ["PP.Props.Properties_%s" % check.prop]
+    with Lock("coq"):
+        rc, out = run(["coqchk", "-silent", "-o", "-Q", "theories", "PP"] + list(modules), cwd=COQ, timeout=timeout)
+    text = out.decode("utf-8", "replace")
+    ok = rc == 0 and "Axioms: <none>" in text and "type-in-type: <none>" in text and "unsafe (co)fixpoints: <none>" in text
+    check.cov["coqchk"] = "ok: " + " ".join(text.split())[-300:] if ok else "FAILED: " + text[-600:]
+    check.cov["trusted_base"].append("coqchk -o over " + " ".join(modules) + (": Axioms <none>" if ok else ": FAILED"))
+    if not ok:
+        check.broken.append("coqchk failed on %s: %s" % (" ".join(modules), text[-400:]))
+    return ok
+
+
+def run_lines_robust(exe, lines, timeout=120, env=None, args=(), per_line_timeout=10, max_failures=4):
+    """Like run_lines, but a harness that hangs or dies in the middle does not lose the
+    other cases: returns a list with one entry per input line; the entry of a line the
+    harness hung on is 'TIMEOUT', of one it died on 'CRASH:<status>'.  After max_failures such
+    lines the remaining ones are not run ('SKIPPED').  (The harness must flush after every line.)"""
+    out_all = []
+    rest = list(lines)
+    first = True
+    failures = 0
+    while rest:
+        if failures >= max_failures:
+            out_all += ["SKIPPED"] * len(rest)
+            break
+        data = ("\n".join(rest) + "\n").encode()
+        t = timeout if first else max(per_line_timeout, timeout // 4)
+        try:
+            p = subprocess.run([exe] + list(args), input=data, stdout=subprocess.PIPE, stderr=subprocess.PIPE, timeout=t, env=env)
+            raw, status = p.stdout, p.returncode
+            timed_out = False
+        except subprocess.TimeoutExpired as e:
+            raw, status, timed_out = e.stdout or b"", None, True
+        out = raw.decode("utf-8", "replace").split("\n")
+        complete = out[:-1]            # the last element is '' or a partial line
+        complete = complete[:len(rest)]
+        out_all += complete
+        if len(complete) == len(rest):
+            break
+        # the line after the last complete one is the culprit
+        if timed_out:
+            # distinguish "slow batch" from "hang on this line": retry the culprit alone
+            try:
+                p = subprocess.run([exe] + list(args), input=(rest[len(complete)] + "\n").encode(), stdout=subprocess.PIPE,
+                                   stderr=subprocess.PIPE, timeout=per_line_timeout, env=env)
+                o = p.stdout.decode("utf-8", "replace").split("\n")
+                out_all.append(o[0] if len(o) > 1 else "CRASH:%s" % p.returncode)
+            except subprocess.TimeoutExpired:
+                out_all.append("TIMEOUT")
+        else:
+            out_all.append("CRASH:%s" % status)
+        if out_all[-1] == "TIMEOUT" or out_all[-1].startswith("CRASH"):
+            failures += 1
+        rest = rest[len(complete) + 1:]
+        first = False
+    return out_all
+
+
+# --------------------------------------------------------------------------
+# resource-limited runs of real code (added for C07/C08/C19: a broken loop in the
+# code under test must become a violation with its input, not a hung or
+# memory-eating check)
+
+def _limits(mem_mb):
+    def f():
+        import resource
+        os.setsid()
+        if mem_mb:
+            b = mem_mb * 1024 * 1024
+            resource.setrlimit(resource.RLIMIT_AS, (b, b))
+    return f
+
+
+def run_limited(argv, stdin=b"", timeout=20, mem_mb=2048, env=None):
+    """Like run_tool, but in its own process group (killed as a whole on timeout) and
+    with an address-space limit.  Returns (status, stdout, stderr); status 'timeout'."""
+    import signal
+    p = subprocess.Popen(argv, stdin=subprocess.PIPE, stdout=subprocess.PIPE, stderr=subprocess.PIPE,
+                         env=env, preexec_fn=_limits(mem_mb))
+    try:
+        out, err = p.communicate(stdin, timeout=timeout)
+        return p.returncode, out, err
+    except subprocess.TimeoutExpired:
+        try:
+            os.killpg(p.pid, signal.SIGKILL)
+        except Exception:
+            p.kill()
+        out, err = p.communicate()
+        return "timeout", out or b"", err or b""
+    finally:
+        try:
+            os.killpg(p.pid, signal.SIGKILL)     # stray children of the tool (scripted child programs)
+        except Exception:
+            pass
+
+
+def run_lines_limited(exe, lines, timeout=120, mem_mb=2048):
+    """run_lines with limits.  Returns (status, out_lines, stderr_text)."""
+    st, out, err = run_limited([exe], ("\n".join(lines) + "\n").encode(), timeout=timeout, mem_mb=mem_mb)
+    o = out.decode("utf-8", "replace").split("\n")
+    if o and o[-1] == "":
+        o.pop()
+    return st, o, err.decode("utf-8", "replace")
+
+
+def find_culprit(exe, lines, timeout=5, mem_mb=2048):
+    """The harness did not answer all lines: find the first line it does not survive
+    (answers come one per line, so the number of answers locates it)."""
+    lo = 0
+    for _ in range(8):
+        st, o, err = run_lines_limited(exe, lines[lo:], timeout=timeout if lo else 60, mem_mb=mem_mb)
+        if len(o) >= len(lines) - lo:
+            return None
+        bad = lo + len(o)
+        st1, o1, e1 = run_lines_limited(exe, [lines[bad]], timeout=timeout, mem_mb=mem_mb)
+        if len(o1) < 1:
+            return bad, st1, e1[-300:]
+        lo = bad + 1
+    return None
